@@ -114,12 +114,63 @@ Fixpoint walk (prev : snap) (opn : gset N) (keep : bool) (steps : list hstep) (i
 
 Definition ok_c08 (steps : list hstep) (impl : list iobs) : bool := walk snap_empty ∅ true steps impl.
 
+(** ** handle counts derived from the history itself.
+
+    [walk] decides "last handle" from the handle count in the implementation's own previous
+    snapshot; a receiver that miscounts handles would be judged by its own miscount (seeded change
+    C08-4: the decremented count is not written back, so a cloned span never reaches zero and its
+    host span leaks).  [refs_ok] recomputes the counts from the accepted events alone - [NewSpan]
+    gives 1, [SpanCloned] adds one, [SpanDropped] takes one away and forgets the span at zero;
+    persist commits, drop goes back to the last commit - and requires, after every step, that the
+    spans of the implementation's snapshot are exactly the spans with a handle outstanding, with
+    these counts. *)
+Fixpoint aset {V} (k : N) (v : V) (l : list (N * V)) : list (N * V) :=
+  match l with
+  | [] => [(k, v)]
+  | (k', v') :: r => if N.eqb k k' then (k, v) :: r else (k', v') :: aset k v r
+  end.
+Fixpoint adel {V} (k : N) (l : list (N * V)) : list (N * V) :=
+  match l with
+  | [] => []
+  | (k', v') :: r => if N.eqb k k' then r else (k', v') :: adel k r
+  end.
+
+Definition refs_event (refs : list (N * N)) (ev : event) : list (N * N) :=
+  match ev with
+  | ENewSpan id _ _ _ => aset id 1%N refs
+  | ESpanCloned id => match alookup id refs with Some n => aset id (n + 1)%N refs | None => refs end
+  | ESpanDropped id => match alookup id refs with
+                       | Some n => if (n <=? 1)%N then adel id refs else aset id (n - 1)%N refs
+                       | None => refs
+                       end
+  | _ => refs
+  end.
+
+Definition refs_match (refs : list (N * N)) (s : snap) : bool :=
+  Nat.eqb (List.length refs) (List.length (sn_spans s))
+  && forallb (fun kd => option_eqb N.eqb (alookup (fst kd) refs) (Some (sd_refs (snd kd)))) (sn_spans s).
+
+Fixpoint refs_walk (refs committed : list (N * N)) (steps : list hstep) (impl : list iobs) : bool :=
+  match steps, impl with
+  | s :: steps', i :: impl' =>
+      let '(refs', committed') :=
+        match s, i with
+        | SRecv ev, IRecv Accepted _ _ => (refs_event refs ev, committed)
+        | SRecv _, _ => (refs, committed)
+        | SPersist _, _ => (refs, refs)
+        | SDrop, _ => (committed, committed)
+        end in
+      refs_match refs' (iobs_snap i) && refs_walk refs' committed' steps' impl'
+  | _, _ => true
+  end.
+Definition refs_ok (steps : list hstep) (impl : list iobs) : bool := refs_walk [] [] steps impl.
+
 Definition judge_c08 (steps : list hstep) (impl : list iobs) : verdict :=
   (* The property text carries no proviso, so the executable statement is evaluated on every
      history; the theorems of Props/C08.v are proved under C06's proviso ([hist_scope]): outside
      it (a span id re-announced while alive) the verdict rests on the correspondence and on the
      tracker run on the implementation's own calls. *)
-  judge_of true (corr_history steps impl) (ok_c08 steps impl).
+  judge_of true (corr_history steps impl) (ok_c08 steps impl && refs_ok steps impl).
 
 (** * specifications of the boolean helpers *)
 Lemma step_scope_b_spec h s : step_scope_b h s = true ↔ step_scope h s.
